@@ -36,4 +36,7 @@ ScenarioFails(ev) ==
              SeqToSet(ev.flex_bins[k]) = Ring(ev.n, RAdd(ev.flex_offset, RMul(RInt(k - 1), ev.flex_width)),
                                                      RAdd(ev.flex_offset, RMul(RInt(k), ev.flex_width)))
         THEN {} ELSE {"flexible_bin_width_is_the_stated_sampling"})
+  \cup (IF \A k \in 1..Len(ev.flex_prefix) :
+             SeqToSet(ev.flex_prefix[k]) = Ring(ev.n, ev.flex_offset, RAdd(ev.flex_offset, RMul(RInt(k), ev.flex_width)))
+        THEN {} ELSE {"flexible_then_integrate_radial_over_the_first_k_bins"})
 =============================================================================
